@@ -340,6 +340,44 @@ def write_evidence(prop, tier, seed, results, discharged, not_discharged, violat
         json.dump(ev, f, indent=1)
 
 
+def probe(patterns, timeout):
+    allh = registry.load()
+    hs = []
+    for h in allh:
+        for p in patterns:
+            if (p.endswith("*") and h.name.startswith(p[:-1])) or h.name == p:
+                hs.append(h)
+                break
+    if not hs:
+        print("no harness matches")
+        return 2
+    scratch, repo_copy = inject.make_scratch("probe")
+    _cleanup_dirs.append(scratch)
+    inject.inject(repo_copy)
+    log_dir = os.path.join(scratch, "logs")
+    groups = {}
+    for h in hs:
+        h.timeout = timeout
+        groups.setdefault(h.group(), []).append(h)
+    keep = os.path.join(VERIF, ".logs", "probe")
+    for (pkg, feats), ghs in sorted(groups.items()):
+        target_dir = os.path.join(scratch, "target-%s-%s" % (pkg, feats.replace(",", "_") or "default"))
+        jobs = max(1, min(int(os.environ.get("GV_JOBS", "8")), len(ghs)))
+        res, info = kani.run_group(repo_copy, pkg, feats, ghs, target_dir, log_dir, jobs, timeout + 600,
+                                   tag="%s_%s" % (pkg, feats.replace(",", "_") or "default"))
+        if info["build_failed"]:
+            print("BUILD FAILED, see %s" % os.path.join(keep, os.path.basename(info["log"])))
+        for name, r in sorted(res.items()):
+            print("%-44s %-8s %7s s  rss %5s GB  checks %s  covers %s  %s" % (
+                name, r.status, "%.1f" % r.duration_s if r.duration_s is not None else "-", r.peak_rss_gb,
+                (r.counts or {}).get("total_properties"), ["%s:%s" % (d[:30], s) for d, s in r.covers if s != "Satisfied"] or "ok", r.note))
+            for f in r.failed[:6]:
+                print("      FAILED: %s @ %s" % (f["description"], rel_location(f, repo_copy)))
+    shutil.rmtree(keep, ignore_errors=True)
+    shutil.copytree(log_dir, keep)
+    return 0
+
+
 def do_replay(prop, path):
     scratch, repo_copy = inject.make_scratch(prop + "-replay")
     _cleanup_dirs.append(scratch)
@@ -361,6 +399,8 @@ def main():
     ap.add_argument("--replay")
     ap.add_argument("--list", action="store_true")
     ap.add_argument("--selftest")
+    ap.add_argument("--probe", nargs="+", help="development: run the named harnesses (prefix match with trailing *) and print status/time/memory")
+    ap.add_argument("--probe-timeout", type=int, default=1200)
     a = ap.parse_args()
     seed = int(os.environ.get("VERIF_SEED", "0") or 0)
     if a.list:
@@ -370,6 +410,8 @@ def main():
     if a.selftest:
         from gv import selftest
         return selftest.run(a.selftest)
+    if a.probe:
+        return probe(a.probe, a.probe_timeout)
     if not a.prop:
         ap.error("property id required")
     if a.replay:
